@@ -83,6 +83,7 @@ class World(EventDispatcher):
         # Components of this same call replaced by a later one of the
         # same type: their removal is announced after their addition
         replaced = []
+        stored = []     # components of this call stored so far
 
         # Code duplication for performance, see add_component
         for component in components:
@@ -91,11 +92,14 @@ class World(EventDispatcher):
             # Manage replaced components
             old = self._entities.get(entity_id, {}).get(component_type)
             if old is not None:
-                if any(old is other for other in components):
+                if any(old is other for other in stored):
                     replaced.append(old)
                 else:
+                    # Owned before this call (possibly the very instance
+                    # being given again): detached, then attached anew
                     self._remove_replaced_component(entity_id,
                                                     component_type)
+            stored.append(component)
 
             if component_type not in self._components:
                 self._components[component_type] = set()
